@@ -6,18 +6,28 @@ import FluteModel.Prim
   ABSTRACTIONS (stated explicitly, everything else is line by line):
   * One transfer of an object (`BlockEncoder`, modelled in detail by `FluteModel/BlockEnc.lean`) is a
     finite sequence of `nPk` packets, `nPk = nSym` encoding symbols (FEC No-Code: all of them source
-    symbols), an empty object (`nSym = 0`) = 1 packet carrying B.  The last packet carries B iff the
+    symbols), an empty object (`nSym = 0`) = 1 packet carrying B.  The number of packets of one transfer is an
+    INPUT (`AddArgs.nSym`): where it is not the number of source symbols - an EMPTY object sent with RaptorQ / Raptor
+    from a buffer sends the `parity` repair packets of its empty block and is never paced - the caller passes
+    `nSym = parity` and no target (engine family `emptyrateless-*`, fdtabs' driver).  The last packet carries B iff the
     encoder was created with `is_last_transfer`.  Forced stop (`read(true)`): the encoder is marked
     stopped and yields at most one more packet, carrying B.  (`encRead`)
   * The FDT instance published as k-th publication has `fdtPkts k` packets (`fdtPkts` is an input
     table: the XML length is library determined); its content is the list of TOIs it announces.
-  * `packet_transmission_tick = duration.div_f64(n as f64)` is floating point: the tick to be used by
-    a transfer of object `toi` starting during a `read` is an input of that `read` (`ticks`).
+  * `packet_transmission_tick`: the tick to be used by a transfer of object `toi` starting during a `read` is a
+    parameter of that `read` (`ticks`) and every theorem quantifies over all tick tables; the driver computes it
+    (`tickOf` / `modelTicks`: `target / n`, exact integer division of the nanoseconds - /repo 9d73d78, repair of
+    sched-4; before it was `Duration::div_f64` and the value was read off the real code).
   * TOIs are handed out by `allocate_toi` right before `add_object` (start value 1, no wrap-around
     inside a history: C15 owns the allocator), so the n-th `add` carries TOI n.
   * `Arc<FileDesc>` sharing is a store of descriptors addressed by key (TOI for objects, publication
     index for FDT instances); u32/u64 counters (`transfer_count`, `total_nb_transfer`) and
-    `SystemTime::checked_add` are unbounded `Nat`; only buffer sources (`BlockEncoder::new` cannot fail).
+    `SystemTime::checked_add` are unbounded `Nat`.
+  * Sources: a buffer never fails.  A STREAM source is modelled by its fault schedule (`AddArgs.faults`: code of
+    the n-th transfer attempt, 0 = the rewind fails -> `BlockEncoder::new` fails -> `get_next` releases the file at
+    once (`openFailed`); >= 1 = the first read fails -> the encoder yields nothing, the file is released and the
+    call gives the hand back, `new_encoder`, /repo a00f689): transfer attempts that fail to START.  A read error
+    in the MIDDLE of a transfer (truncated transfer, finding sched-8) is not modelled (engine-only probe).
   * Rust panics: `State.panic` would be set (and the driver reports `PANIC`).  After the repairs of D4
     (`div_f64(0.0)` for an empty object with a target acquisition) and of the `fdtid + 1` overflow
     (`fdt_start_id = u32::MAX`; now `wrapping_add(1) & 0xFFFFF` = `(fdtid + 1) % 2^20`) no transition of the
@@ -300,6 +310,8 @@ def currentFdtWillExpire (s : State) (now : Nat) : Bool :=
   if !s.fdtQueue.isEmpty then false else
   match s.curFdt, s.lastPublish with
   | some _, some lp =>
+    -- a successor has already been published at this very instant (repair of F24)
+    if lp = now then false else
     let d := now - lp
     if s.cfg.fdtDuration > 30000000000 then decide (s.cfg.fdtDuration - 5000000000 < d)
     else if s.cfg.fdtDuration > 10000000000 then decide (s.cfg.fdtDuration - 1000000000 < d)
@@ -346,6 +358,19 @@ def findNext (s : State) (prio now : Nat) : List Nat → Option Nat
     match getF s.objs t with
     | some f => if shouldTransferNow f prio s.cfg.mode now then some t else findNext s prio now rest
     | none => findNext s prio now rest
+
+/-- the pacing tick `TransferInfo::init` computes for a transfer starting at `now`: the exact integer quotient of the
+    nanoseconds (`target / nb_packets`, floor; since the repair of sched-4 no f64 is involved) -/
+def tickOf (f : FileDesc) (now : Nat) : Nat :=
+  match f.target with
+  | some (.dur d) => d / f.nSym
+  | some (.time T) => (T - now) / f.nSym
+  | _ => 0
+
+/-- the tick table of a `read(now)`: the driver computes it from the state (it used to be an input read off the real
+    `Duration::div_f64`); the theorems keep quantifying over EVERY tick table -/
+def modelTicks (s : State) (now : Nat) : List (Nat × Nat) :=
+  s.files.filterMap fun t => (getF s.objs t).map fun f => (t, tickOf f now)
 
 def tkGet (ticks : List (Nat × Nat)) (toi : Nat) : Nat :=
   match ticks.find? (fun p => p.1 == toi) with
